@@ -330,7 +330,11 @@ func suiteSuppaRuns(c *Ctx) {
 		}
 	}
 	for g := 0; g < c.N(3, 40); g++ {
+		// the first generated dataset carries exact half-cent costs (seed C05k): the archived objective values of a member
+		// reached by an on/off/on history must still be those of a fresh model at that action set (judged Go against Go)
+		genExactCostTies, genForceTies = g == 0, g == 0
 		ds := genDataset(r.Fork(), filepath.Join(c.Out, "gen"), fmt.Sprintf("S%d_%d_", c.Shard, g))
+		genExactCostTies, genForceTies = false, false
 		jobs = append(jobs, job{ds, -1, 0, []string{"product", "averaged"}[r.Intn(2)]})
 		if ref, err := newRef(ds, -1, 0); err == nil && ref.cm.n() > 0 {
 			v := r.Intn(6)
